@@ -259,8 +259,9 @@ func genReq(t *rapid.T) Req {
 				defects = append(defects, defect{"nested-put-value-too-big", 0})
 			}
 			op := &regattapb.RequestOp{Request: &regattapb.RequestOp_RequestPut{RequestPut: bad}}
-			// place it in both branches so that it is on the executed path whatever the predicates say; its position varies and
-			// it may follow an operation with an unset oneof (which the state machine skips)
+			// place it in the success branch only, the failure branch only, or both (the request violates the limits whichever
+			// branch the predicates select); its position varies and it may follow an operation with an unset oneof (which the
+			// state machine skips)
 			place := func(ops []*regattapb.RequestOp) []*regattapb.RequestOp {
 				switch rapid.IntRange(0, 3).Draw(t, "nestedpos") {
 				case 0:
@@ -271,8 +272,15 @@ func genReq(t *rapid.T) Req {
 					return append(ops, op)
 				}
 			}
-			q.Success = place(q.Success)
-			q.Failure = place(q.Failure)
+			switch rapid.IntRange(0, 3).Draw(t, "nestedbranch") {
+			case 0:
+				q.Success = place(q.Success)
+			case 1:
+				q.Failure = place(q.Failure)
+			default:
+				q.Success = place(q.Success)
+				q.Failure = place(q.Failure)
+			}
 		} else if inject > 0 && rapid.IntRange(0, 5).Draw(t, "hostileop") == 0 {
 			// shapes the documentation does not rule on (nested reads with odd options, empty oneof): only liveness is asserted
 			hostile = true
